@@ -3,12 +3,14 @@ import re
 from vlib import core, drivers
 
 PROP = 'C07'
-MODULES = ['PistacheModel.Props.C07']
+MODULES = ['PistacheModel.Props.C07', 'PistacheModel.Props.C07Interest']
 THEOREMS = ['Pistache.EventLoop.Props.' + t for t in ('other_untouched', 'no_attempts_from_others', 'blocked_one_attempt', 'blocked_event_one_attempt',
-                                                      'writable_delivers', 'request_answered', 'old_drain_spins')]
+                                                      'writable_delivers', 'request_answered', 'old_drain_spins')] + \
+           ['Pistache.WriteInterest.Props.' + t for t in ('pending_never_forgotten', 'interest_only_when_pending', 'room_then_writable_delivers', 'blocked_costs_one_attempt',
+                                                           'run_refines_from', 'bytes_complete_in_order', 'rearm_once_strands', 'stranded_stays')]
 
 def gen(tier, rnd):
-    L = ['stall 2 4000000 600 3', 'stall 1 6000000 300 2 1', 'stall 3 3000000 400 1 1', 'stall 1 8000000 300 1 2', 'stall 2 5000000 400 2 2']
+    L = ['stall 2 4000000 600 3', 'stall 1 6000000 300 2 1', 'stall 3 3000000 400 1 1', 'stall 1 8000000 300 1 2', 'stall 2 5000000 400 2 2', 'stall 2 3000000 300 2 3', 'stall 1 6000000 300 1 3']
     combos = [(1, 6000000, 400, 2), (3, 3000000, 600, 4), (5, 2000000, 300, 1), (2, 5000000, 800, 6)]
     if tier == 'thorough':
         for _ in range(24): combos.append((rnd.randint(1, 6), rnd.choice([2000000, 3000000, 5000000, 8000000]), rnd.choice([200, 500, 1000, 1500]), rnd.randint(1, 8)))
@@ -27,6 +29,8 @@ def oracle(ln, out):
     if int(f['banswered']) != nb: return ('stalled', 'only %s of %d requests on the other connection were answered while one peer was not reading' % (f['banswered'], nb))
     if int(f['raw_worst_ms']) > 1000: return ('slow', 'a request on the other connection took %s ms while one peer was not reading' % f['raw_worst_ms'])
     if int(f['raw_attempts']) > 200: return ('busy-wait', '%s write attempts on the blocked connection during %d ms without it accepting anything' % (f['raw_attempts'], hold))
+    if f.get('wint', '??')[0] != '1': return ('interest', 'data is queued for the stalled connection and its socket is full, but write interest is not registered with the worker\'s epoll (mask bit EPOLLOUT: %s): nothing will wake the worker for it' % f.get('wint'))
+    if f.get('wint', '??')[1] != '0': return ('interest', 'everything was delivered but write interest is still registered (%s)' % f.get('wint'))
     total = nw * size * (2 if len(w) > 5 and w[5] == '1' else 1)
     if int(f['recv']) != total or f['match'] != '1': return ('lost', 'after the stalled peer resumed reading it received %s of %d bytes (match=%s)' % (f['recv'], total, f['match']))
     if len(w) > 5 and w[5] == '1': nw *= 2
@@ -38,7 +42,7 @@ def oracle(ln, out):
 def classify(ln, out): return tuple(ln.split()[1:]) + (canon(out)[:40],)
 
 RULE = ('a live single-worker endpoint; connection A (4 KB receive buffer, not reading) requests 1..6 writes of 2..8 MB so that the server socket really stops accepting data; during 200..1500 ms connection B issues 1..8 requests; '
-        'then A reads everything; in the two-batch variant A asks for a second batch and starts reading while the worker is busy on B, so that A becomes readable and writable in one readiness event; in the third variant an established connection C asks while the worker is busy, just before A starts to read (C readable and A writable arrive in one epoll batch). Observed: B\'s answers and worst latency, number of socket write attempts on A while blocked (write hook), bytes finally received on A, A\'s promises. '
+        'then A reads everything; in the two-batch variant A asks for a second batch and starts reading while the worker is busy on B, so that A becomes readable and writable in one readiness event; in the fourth variant the server side of A has a 32 KB send buffer, so that every entry runs into would-block many times, each time after some progress; in the third variant an established connection C asks while the worker is busy, just before A starts to read (C readable and A writable arrive in one epoll batch). Observed: B\'s answers and worst latency, the write-interest bit of A\'s descriptor in the worker\'s epoll instance (read from /proc/self/fdinfo) while A is stalled and after everything was delivered, number of socket write attempts on A while blocked (write hook), bytes finally received on A, A\'s promises. '
         'non-trivial = distinct (writes, size, hold, requests, outcome)')
 ASSUME = ['the kernel\'s socket buffers are smaller than the data queued for A (4 KB receive buffer on the client, MBs queued)', 'latency bound 1000 ms and attempt bound 200 are generous: the repaired code makes 0 attempts and answers in about 1 ms',
           'the model works with scaled-down buffer sizes (same number of writes)']
